@@ -145,7 +145,7 @@ impl<'a, P: Pe<'a>> Exports<'a, P> {
 	}
 	fn is_forwarded(&self, rva: Rva) -> bool {
 		// An export is forward if its rva points within data directory bounds
-		rva >= self.datadir.VirtualAddress && rva < self.datadir.VirtualAddress + self.datadir.Size
+		rva >= self.datadir.VirtualAddress && rva - self.datadir.VirtualAddress < self.datadir.Size
 	}
 	pub(crate) fn symbol_from_rva(&self, rva: &'a Rva) -> Result<Export<'a>> {
 		if *rva == 0 {
